@@ -719,6 +719,65 @@ theorem index?_items (items : List (Option α)) (r : Nat) (o : Option α) (h : i
   simp [h0, h]
 
 
+/-- the loop `for d_start, d_stop in self.dead_indices: if index < d_start: break; apparent_index -= d_stop - d_start`
+    read through the store (`I` = the observed index, kept; `K` = the running value) -/
+theorem cells_app_loop {σ ρ : Type} (H : σ → Heap α Unit) (D : σ → List (Val α Unit)) (K I : σ → Int)
+    (keep : Val α Unit → Bool) (bind : Int → Val α Unit → σ → σ) (body : Stmt σ ρ) (hkeep : ∀ v, keep v = true) (r : Nat)
+    (hbody : ∀ (t : σ) (a : Nat) (p : Nat × Nat) (iv : Int), (H t).cell a = ivCell p → p.1 ≤ p.2 → I t = (r : Int) →
+      ((r : Int) < p.1 → ∃ t', body (bind iv (.ref a) t) = (.brk, t') ∧ K t' = K t ∧ I t' = I t ∧ H t' = H t ∧ D t' = D t) ∧
+      (¬ (r : Int) < p.1 → ∃ t', body (bind iv (.ref a) t) = (.next, t') ∧ K t' = K t - ((p.2 : Int) - p.1) ∧ I t' = I t ∧
+        H t' = H t ∧ D t' = D t)) :
+    ∀ (dead : List (Nat × Nat)) (addrs : List Nat) (pre : List (Val α Unit)) (fuel : Nat) (iv : Int) (t : σ)
+      (lo hi app : Nat),
+      D t = pre ++ addrs.map Val.ref → addrs.map (H t).cell = dead.map ivCell → K t = (app : Int) → I t = (r : Int) →
+      Chain lo dead hi → (∀ p ∈ dead, ¬ (p.1 ≤ r ∧ r < p.2)) → r ≤ app + lo → app ≤ r → dead.length < fuel →
+      ∃ t', forLazy D keep bind body fuel pre.length iv t = (.next, t') ∧ K t' = (appLoop r app dead : Int) := by
+  intro dead
+  induction dead with
+  | nil =>
+    intro addrs pre fuel iv t lo hi app hD hc hK _ _ _ _ _ hf
+    obtain ⟨n, rfl⟩ : ∃ n, fuel = n + 1 := ⟨fuel - 1, by omega⟩
+    have : addrs = [] := by cases addrs with | nil => rfl | cons _ _ => simp at hc
+    subst this
+    refine ⟨t, ?_, by simpa [appLoop] using hK⟩
+    simp [forLazy, hD]
+  | cons p ds ih =>
+    intro addrs pre fuel iv t lo hi app hD hc hK hI hch hl hlo hle hf
+    obtain ⟨n, rfl⟩ : ∃ n, fuel = n + 1 := ⟨fuel - 1, by omega⟩
+    cases addrs with
+    | nil => simp at hc
+    | cons a as =>
+      simp only [List.map_cons, List.cons.injEq] at hc
+      obtain ⟨hca, hcs⟩ := hc
+      have hget : (D t)[pre.length]? = some (Val.ref a) := by rw [hD]; simp
+      obtain ⟨a0, b0⟩ := p
+      simp only [Chain] at hch
+      have hnot := hl (a0, b0) (by simp)
+      simp only at hnot
+      have hb := hbody t a (a0, b0) iv hca (by simp only; omega) hI
+      simp only [forLazy, hget, hkeep, if_true, appLoop]
+      by_cases hlt : r < a0
+      · obtain ⟨t', h1, h2, _, _, _⟩ := hb.1 (by simp only; omega)
+        rw [h1, if_pos hlt]
+        exact ⟨t', rfl, by rw [h2, hK]⟩
+      · obtain ⟨t', h1, h2, h3, h4, h5⟩ := hb.2 (by simp only; omega)
+        rw [h1, if_neg hlt]
+        have hb0 : b0 ≤ r := by omega
+        obtain ⟨t2, g1, g2⟩ := ih as (pre ++ [Val.ref a]) n (iv + 1) t' b0 hi (app - (b0 - a0))
+          (by rw [h5, hD]; simp) (by rw [h4]; exact hcs) (by rw [h2, hK]; simp only; omega) (h3.trans hI) hch.2.2
+          (fun q hq => hl q (List.mem_cons_of_mem _ hq)) (by omega) (by omega) (by simp at hf; omega)
+        refine ⟨t2, ?_, g2⟩
+        simpa using g1
+
+theorem get?_castIdx (m : IMap α) (x : α) :
+    PyRt.Dict.get? (castIdx m) x = match IMap.lookup m x with
+      | some n => .ok (n : Int)
+      | none => .error PyExc.KeyError := by
+  unfold PyRt.Dict.get?
+  rw [find_castIdx]
+  cases IMap.lookup m x <;> rfl
+
+
 end RepSec
 
 end C11
